@@ -670,7 +670,7 @@ impl<'a, S: BitmapSlice> ZeroCopyReader for ZcReader<'a, S> { }
                'forall|p: &InitParams| on_init_params.requires((p,))',
                # the version recorded for later requests is the client's (the store is an effect on &self: capability)
                '''ctx.r.rem@.len() >= 16 ==> forall|v: ServerVersion| ({ let a = <InitIn as ByteValued>::sdecode(ctx.r.rem@.subrange(0, 16)); v.major == a.major && v.minor == a.minor }) ==> #[trigger] self.vers.may_store(v) // [C12.vers]'''],
-           external_body=EXT('init'), props=['C12'], canary=not EXT('init'),
+           external_body=EXT('init'), props=['C12'], canary=not EXT('init'), gtag_props={'cap': ['C12'], 'emit': ['C12'], 'frame': ['C12']},
            splices=[('^', 'after', 'let ghost a0 = <InitIn as ByteValued>::sdecode(rem0.subrange(0, 16)); proof { reveal(errno_reply); assert((1u32 << 20) == 0x10_0000u32) by (bit_vector); }'),
                     E0,
                     ('return ctx.reply_ok(Some(out), None);', 'before',
@@ -803,7 +803,7 @@ impl<'a, S: BitmapSlice> ZeroCopyReader for ZcReader<'a, S> { }
                     props=['C03', 'C16'], canary=True))
     return Unit('server', items, preludes=['base.rs', 'stdmodel.rs', 'transport.rs', 'server.rs'],
                 generic_tags={'cap': ['C02'], 'touch': ['C02'], 'ids': ['C02'], 'emit': ['C03'], 'frame': ['C01'], 'noreply': ['C01'],
-                              'once': ['C01'], 'assert': ['C01']},
+                              'once': ['C01'], 'assert': ['C01'], 'store': ['C12']},
                 notes='\n'.join(notes))
 
 
